@@ -1016,11 +1016,12 @@ impl Sink {
 /// finding classes: ids and ONE Coq term evaluating to the list of their truth values
 fn c08_ks(st: &str, q: &str, lang: Lang, plan: Option<&str>) -> (Vec<String>, String) {
     let mut ids: Vec<String> =
-        ["C08-K1", "C08-K2", "C08-K3", "C08-K4", "C08-K5", "C08-K6", "C08-K7", "C08-K10", "C08-K9", "C08-K12", "C08-K13"].iter().map(|s| s.to_string()).collect();
+        ["C08-K1", "C08-K2", "C08-K3", "C08-K4", "C08-K5", "C08-K6", "C08-K7", "C08-K10", "C08-K9", "C08-K12", "C08-K13", "C08-K14"].iter().map(|s| s.to_string()).collect();
     let mut t = format!(
         "let st := {st} in let q := {q} in [k1_unbounded q; k2_type_case st q; k3_both_selfloop st q; k4_zero_hops q; \
          k5_return_distinct q; k6_gql_limit_first {} q; k7_multi_label q; k10_edge_prop_materialised q; \
-         k9_cypher_order_cols {} q; k12_cypher_count {} q; k13_typed_result st q",
+         k9_cypher_order_cols {} q; k12_cypher_count {} q; k13_typed_result st q; k14_gremlin_dedup {} q",
+        lang.coq(),
         lang.coq(),
         lang.coq(),
         lang.coq()
@@ -1564,6 +1565,10 @@ fn c08_corpus(sink: &mut Sink) {
     let mut q6d = base.clone();
     q6d.limit = Some(2);
     c08_case(sink, &w, &q6d, "c08w-k6d", &["corpus".into()]);
+    // K14: Gremlin dedup() over paths
+    let mut q14 = base.clone();
+    q14.ret = Ret::Plain(vec![Ex::Var("b".into())], true);
+    c08_case(sink, &w, &q14, "c08w-k14", &["corpus".into()]);
     let mut q7 = base.clone();
     q7.start = np("a", &["A", "B"]);
     q7.hops.clear();
